@@ -21,7 +21,7 @@ RULE = ("case = generated layout (depth <= 4, 10-25 entries incl. look-alikes an
         "directories (relative and absolute -c); then one sub-directory unreadable, TMPDIR on another file system, and (35 %) one "
         "sub-directory of the source tree as the mount point of another file system (other st_dev, EXDEV across it). Non-trivial = layout with at least one out-of-scope decoy carrying a missing "
         "reference and one in-scope file; distinct = case index.")
-PROBES = ["readdir_without_types", "mount_point_in_tree", "config_via_symlink", "exdev_run", "stem_siblings", "unreadable_subdir", "config_in_subdir", "symlink_to_file", "symlink_to_dir", "symlink_outside", "dir_named_rs", "lookalike_ext", "abs_source_dir", "cwd_outside",
+PROBES = ["hard_link_out_of_scope", "readdir_without_types", "mount_point_in_tree", "config_via_symlink", "exdev_run", "stem_siblings", "unreadable_subdir", "config_in_subdir", "symlink_to_file", "symlink_to_dir", "symlink_outside", "dir_named_rs", "lookalike_ext", "abs_source_dir", "cwd_outside",
           "cwd_root_abs", "empty_scope", "multi_ext", "hidden_rs", "nested_depth4"]
 ASSUMPTIONS = ["source_dir itself is a real directory (not a symlink)"]
 DEADLINE = {"quick": 200, "thorough": 3000}
@@ -140,6 +140,11 @@ def gen(rng):
     if rng.random() < 0.3:
         extra[os.path.join(base, "sib_link.rs")] = {"t": "l", "target": up + "/proj/build.rs"}
         tags.add("symlink_to_file")
+    if rng.random() < 0.25:
+        # other (hard-linked) names of the plain in-scope file outside the scope: a cp -al snapshot, an editor's .orig
+        extra["outside/snapshot/main.rs"] = {"t": "h", "to": os.path.join(base, "main.rs")}
+        extra[os.path.join(base, "main.rs.orig")] = {"t": "h", "to": os.path.join(base, "main.rs")}
+        tags.add("hard_link_out_of_scope")
     cfg = {"source_dir": "@ROOT@/proj/src" if srcform == "abs" else srcform, "structured": rng.random() < 0.3,
            "use_cache": rng.choice([True, None, False]), "extensions": exts}
     wm = {"cfg": cfg, "files": {}, "extra": extra, "lock": None}
